@@ -441,4 +441,22 @@ def r7_11(ctx):
     ctx.floor(n, 3, "uses of column.width / min_width / max_width in _measure_column")
 
 
-RULES = [r7_1, r7_2, r7_3, r7_4, r7_5, r7_6, r7_7, r7_8, r7_9, r7_10, r7_11]
+def r7_12(ctx):
+    from .c13 import r13_7
+    from .common import borrow
+    borrow(ctx, r13_7, "R13.7", "R7.12", " [every line of a row has the column's width only if cells are cropped / padded in cells]")
+
+
+def r7_13(ctx):
+    from .c13 import r13_9
+    from .common import borrow
+    borrow(ctx, r13_9, "R13.9", "R7.13", " [a folded cell shows every character: the pieces chop_cells returns concatenate to the word]")
+
+
+def r7_14(ctx):
+    from .c13 import r13_6
+    from .common import borrow
+    borrow(ctx, r13_6, "R13.6", "R7.14", " [the folding of a cell depends on the position in the line: caches of the cell helpers must cover every argument]")
+
+
+RULES = [r7_1, r7_2, r7_3, r7_4, r7_5, r7_6, r7_7, r7_8, r7_9, r7_10, r7_11, r7_12, r7_13, r7_14]
